@@ -23,3 +23,18 @@ silent("C47", "guard-rewritten-as-le",
        [(WM, "        if num_wires > available_zeroed:\n", "        if not num_wires <= available_zeroed:\n")])
 silent("C47", "free_wires-ge-test-flipped",
        [(WM, "        if num_wires > self.any_state:\n            raise ValueError(", "        if self.any_state < num_wires:\n            raise ValueError(")])
+
+# --- R-C47-pure / R-C47-percall
+_RB = "pennylane/estimator/resources_base.py"
+_EST = "pennylane/estimator/estimate.py"
+fire("C47", "multiply-series-scales-operand-counts-in-place",
+     (_RB, "        new_gate_types = defaultdict(int, {k: v * scalar for k, v in self.gate_types.items()})\n\n        return Resources(\n            zeroed_wires=self.zeroed_wires,\n            any_state_wires=self.any_state_wires * scalar,",
+           "        new_gate_types = self.gate_types\n        for k_ in list(new_gate_types):\n            new_gate_types[k_] *= scalar\n\n        return Resources(\n            zeroed_wires=self.zeroed_wires,\n            any_state_wires=self.any_state_wires * scalar,"),
+     "R-C47-pure", "multiply_series")
+fire("C47", "wire-manager-created-once-per-estimate-callable",
+     (_EST, "    @wraps(workflow)\n    def wrapper(*args, **kwargs):\n        with AnnotatedQueue() as q:\n            workflow(*args, **kwargs)\n\n        wire_manager = WireResourceManager(zeroed, any_state, 0, tight_budget)\n",
+            "    wire_manager = WireResourceManager(zeroed, any_state, 0, tight_budget)\n\n    @wraps(workflow)\n    def wrapper(*args, **kwargs):\n        with AnnotatedQueue() as q:\n            workflow(*args, **kwargs)\n\n"),
+     "R-C47-percall", "_resources_from_qfunc")
+silent("C47", "wire-manager-created-before-the-queue-in-the-same-call",
+       [(_EST, "        with AnnotatedQueue() as q:\n            workflow(*args, **kwargs)\n\n        wire_manager = WireResourceManager(zeroed, any_state, 0, tight_budget)\n",
+               "        wire_manager = WireResourceManager(zeroed, any_state, 0, tight_budget)\n        with AnnotatedQueue() as q:\n            workflow(*args, **kwargs)\n\n")])
